@@ -27,6 +27,9 @@ def make_wl(rng, k):
         # how the files and their labels are given: --bam [--labels], a list file ('<path>:<label>'), YAML ('labels')
         opts["input_mode"] = ["auto", "bam_list", "yaml", "auto", "yaml", "bam_list"][(i // 4) % 6]
         opts["labels"] = [None, "custom", "custom", "custom", "omit", None][(i // 4) % 6]
+        if k is not None:
+            # the streaming store re-fetches every region from the files that cover it: default memory mode for these workloads
+            opts["force_cell"] = {"high_memory": False}
         if spec["bam_split"] == "chunks":
             # no cross-chromosome records: the first file really has nothing on the last chromosome
             spec.update(paralogs=0, intergenic_multi=0, decoy_chr=0, supplementary=0)
@@ -34,9 +37,11 @@ def make_wl(rng, k):
         # the documented table layouts: file:<path>[:<read col>:<group col>[:<delim>]], plain or gzipped
         opts["group_table_fmt"] = [None, "0:1:tab:gz", "2:0:comma", "1:3:semi:gz", "3:1:space", "1:0:tab"][(i // 4) % 6]
     if mode == "tag":
-        spec["group_tag"] = ["RG", "XG", "RG", "CB"][(i // 4) % 4]
+        spec["group_tag"] = ["RG", "XG", "RG", "HP"][(i // 4) % 4]
         if (i // 4) % 4 == 2:
             opts["read_group"] = "tag_default"      # '--read_group tag' = RG
+        if spec["group_tag"] == "HP":
+            spec["group_naming"] = 4                # integer-typed tag values (HP:i:1)
     opts["annotated"] = True
     strats = ["unique_only", "with_ambiguous", "unique_splicing_consistent", "unique_inconsistent", "all"]
     opts["transcript_quant"] = strats[i % 5]
